@@ -1268,12 +1268,38 @@ def has_complement_xor(j):
     unevaluated nodes for `a != (not a)`, `(not a) or a`, ...); sympy 1.12 `to_anf` is unsound there"""
     if j[0] in ("tt", "ff", "sym"):
         return False
+    if both_polarities(j):
+        return True
     names = B.syms_json(j)
     if names and len(names) <= 10:
         tt = B.truth_table(names, [j])
         if tt.count("1") in (0, len(tt)):
             return True
     return any(has_complement_xor(x) for x in j[1:] if isinstance(x, list))
+
+
+def both_polarities(j):
+    """wider trigger of the same sympy defect (thorough sweep, seed 7: `(a & ~b) ^ (~b | ~a) ^ ~(~a ^ (a & b))`
+    has no constant sub-expression, yet `to_anf` returns a different function): an operator node, other than `And`, with
+    an operand that is a negation of a compound expression, or with operands in which one symbol occurs both plain
+    and negated - what every instance met so far has in common.  The logged call itself (input and output of `to_anf`,
+    compared by truth table) is the evidence that sympy broke its spec; this predicate only keeps the attribution
+    to expressions of that kind."""
+    pol = {}
+
+    def go(x, neg):
+        if x[0] == "sym":
+            pol.setdefault(x[1], set()).add(neg)
+        elif x[0] == "not":
+            go(x[1], not neg)
+        elif x[0] in ("tt", "ff"):
+            pass
+        else:
+            for y in x[1:]:
+                go(y, neg)
+
+    go(j, False)
+    return any(len(v) == 2 for v in pol.values())
 
 
 def n_predicates(j):
